@@ -49,14 +49,15 @@ NoStatus == [q |-> 0, sofar |-> <<>>, ls |-> {}]
 LoopIdle == [st |-> "idle", p |-> <<>>, todo |-> {}]
 Req0 == [st |-> "idle", key |-> "", max |-> 0, q |-> 0, inbuf |-> <<>>, total |-> 0, inc |-> "nil",
          out |-> <<>>, can |-> FALSE, why |-> ""]
-Qry0 == [key |-> "", st |-> "none", ctx |-> FALSE, age |-> 0, em |-> 0, ended |-> FALSE,
+Qry0 == [key |-> "", st |-> "none", called |-> FALSE, ctx |-> FALSE, age |-> 0, em |-> 0, ended |-> FALSE,
          dial |-> [i \in Idx |-> "none"], dcls |-> [i \in Idx |-> ""], fin |-> FALSE, cerr |-> ""]
 (* req[r].st : idle | calling (FindProvidersAsync blocked sending newProvideQuery) | active (receiver
                 goroutine in its select loop) | cancelling (in cancelProviderRequest) | done (returned
                 channel closed)
    req[r].inc : the request's listener channel as the receiver sees it: open | closed (closed by the
                 run loop, not yet noticed) | nil
-   qry[q].st  : none | queued | running (holds a semaphore slot, router called) | exited | dropped
+   qry[q].st  : none | queued | running (holds a semaphore slot; called = its goroutine has called
+                router.FindProvidersAsync) | exited | dropped
    qry[q].ctx : the query context was cancelled by the manager; cerr = what the router's ctx.Err() shows
    qry[q].dial[i] : none | ign | pending (Connect in progress) | ok (receivedProvider message in flight)
                     | sent | fail
@@ -72,7 +73,7 @@ vars == <<w>>
 Msg(t, a, b) == [t |-> t, a |-> a, b |-> b]
 Has(x, k) == x.status[k].q # 0
 Running(x) == {q \in Qs : x.qry[q].st = "running"}
-Started(x) == {q \in Qs : x.qry[q].st \in {"running", "exited"}}
+Started(x) == {q \in Qs : x.qry[q].called}
 
 \* --- helpers -------------------------------------------------------------------------------------
 Done(x, r) == [x EXCEPT !.req[r].st = "done", !.req[r].inc = "nil", !.req[r].inbuf = <<>>, !.req[r].why = "",
@@ -204,6 +205,9 @@ CallerAbortF(x, r) == Done(x, r)
 \* ============================ worker, query goroutines ============================================
 StartQueryEn(x) == x.queue # <<>> /\ (x.cfg.mip = 0 \/ Cardinality(Running(x)) < x.cfg.mip)
 StartQueryF(x) == [x EXCEPT !.queue = Tail(@), !.qry[Head(x.queue)].st = "running"]
+\* the query goroutine calls the router (with several slots the goroutines race: not FIFO any more)
+RouterCallEn(x, q) == x.qry[q].st = "running" /\ ~x.qry[q].called
+RouterCallF(x, q) == [x EXCEPT !.qry[q].called = TRUE]
 DropQueueEn(x) == x.closed /\ x.queue # <<>>
 DropQueueF(x) == [x EXCEPT !.queue = <<>>,
                            !.qry = [q \in Qs |-> IF x.qry[q].st = "queued" THEN [x.qry[q] EXCEPT !.st = "dropped"] ELSE x.qry[q]]]
@@ -224,14 +228,14 @@ CallF(x, r, k, m) == [x EXCEPT !.req[r] = [Req0 EXCEPT !.st = "calling", !.key =
                                !.msgs = @ \cup {Msg("new", r, 0)}]
 CancelEn(x, r) == x.req[r].st \in {"calling", "active", "cancelling"} /\ ~x.req[r].can
 CancelF(x, r) == [x EXCEPT !.req[r].can = TRUE]
-EmitEn(x, q) == x.qry[q].st = "running" /\ ~x.qry[q].ended /\ x.qry[q].em < NProv
+EmitEn(x, q) == x.qry[q].st = "running" /\ x.qry[q].called /\ ~x.qry[q].ended /\ x.qry[q].em < NProv
 EmitF(x, q) == LET i == x.qry[q].em + 1
                IN [x EXCEPT !.qry[q].em = i, !.qry[q].dial[i] = IF i \in x.cfg.ign THEN "ign" ELSE "pending"]
 DialEn(x, q, i) == x.qry[q].dial[i] = "pending"
 DialF(x, q, i, c) == IF Outcome(c, x.cfg.fp)
                      THEN [x EXCEPT !.qry[q].dial[i] = "ok", !.qry[q].dcls[i] = c, !.msgs = @ \cup {Msg("recv", q, i)}]
                      ELSE [x EXCEPT !.qry[q].dial[i] = "fail", !.qry[q].dcls[i] = c]
-EndEn(x, q) == x.qry[q].st = "running" /\ ~x.qry[q].ended
+EndEn(x, q) == x.qry[q].st = "running" /\ x.qry[q].called /\ ~x.qry[q].ended
 EndF(x, q) == [x EXCEPT !.qry[q].ended = TRUE]
 \* the clock advances by 0.6 * findProviderTimeout: a running query's context expires at its 2nd tick
 TickEn(x) == x.ticks < x.cfg.maxticks
@@ -258,6 +262,7 @@ S_CancelSeeClosed(x) == {CancelSeeClosedF(x, r) : r \in {r \in Reqs : CancelSeeC
 S_SeeClosing(x)      == {SeeClosingF(x, r) : r \in {r \in Reqs : SeeClosingEn(x, r)}}
 S_CallerAbort(x)     == {CallerAbortF(x, r) : r \in {r \in Reqs : CallerAbortEn(x, r)}}
 S_StartQuery(x)      == IF StartQueryEn(x) THEN {StartQueryF(x)} ELSE {}
+S_RouterCall(x)      == {RouterCallF(x, q) : q \in {q \in Qs : RouterCallEn(x, q)}}
 S_DropQueue(x)       == IF DropQueueEn(x) THEN {DropQueueF(x)} ELSE {}
 S_SendFin(x)         == {SendFinF(x, q) : q \in {q \in Qs : SendFinEn(x, q)}}
 S_FinAbort(x)        == {FinAbortF(x, q) : q \in {q \in Qs : FinAbortEn(x, q)}}
@@ -265,13 +270,13 @@ S_RecvAbort(x)       == {RecvAbortF(x, m.a, m.b) : m \in {m \in x.msgs : m.t = "
 S_Read(x)            == {ReadF(x, r) : r \in {r \in Reqs : ReadEn(x, r)}}
 
 \* everything the manager does by itself (no caller, router, dialer, consumer, clock involved)
-\* (IntSuccCore: without the worker starting a router query, which the router observes)
+\* (IntSuccCore: without the call of the router, which the router observes)
 IntSuccCore(x, V) == S_HandleNew(x, V) \cup S_HandleNewBail(x, V) \cup S_HandleRecv(x, V) \cup S_BcastStep(x)
                      \cup S_BcastBail(x) \cup S_HandleFin(x, V) \cup S_HandleCancel(x) \cup S_LoopExit(x)
                      \cup S_NoticeCtx(x) \cup S_NoticeClosed(x) \cup S_CancelSeeClosed(x) \cup S_SeeClosing(x)
-                     \cup S_CallerAbort(x) \cup S_DropQueue(x) \cup S_SendFin(x)
+                     \cup S_CallerAbort(x) \cup S_StartQuery(x) \cup S_DropQueue(x) \cup S_SendFin(x)
                      \cup S_FinAbort(x) \cup S_RecvAbort(x)
-IntSucc(x, V) == IntSuccCore(x, V) \cup S_StartQuery(x)
+IntSucc(x, V) == IntSuccCore(x, V) \cup S_RouterCall(x)
 
 \* ============================ named actions (MC) ==================================================
 CONSTANTS MipSet, MpcSet, FpSet, IgnSets, MaxTicks, MaxArgs, DialSet, AllowClose
@@ -293,13 +298,14 @@ CancelSeeClosed == w' \in S_CancelSeeClosed(w)
 SeeClosing      == w' \in S_SeeClosing(w)
 CallerAbort     == w' \in S_CallerAbort(w)
 StartQuery      == w' \in S_StartQuery(w)
+RouterCall      == w' \in S_RouterCall(w)
 DropQueue       == w' \in S_DropQueue(w)
 SendFin         == w' \in S_SendFin(w)
 FinAbort        == w' \in S_FinAbort(w)
 RecvAbort       == w' \in S_RecvAbort(w)
 Internal == HandleNew \/ HandleNewBail \/ HandleRecv \/ BcastStep \/ BcastBail \/ HandleFin \/ HandleCancel
             \/ LoopExit \/ NoticeCtx \/ NoticeClosed \/ CancelSeeClosed \/ SeeClosing \/ CallerAbort
-            \/ StartQuery \/ DropQueue \/ SendFin \/ FinAbort \/ RecvAbort
+            \/ StartQuery \/ RouterCall \/ DropQueue \/ SendFin \/ FinAbort \/ RecvAbort
 
 Call   == \E r \in Reqs, k \in Keys, m \in MaxArgs : CallEn(w, r) /\ w' = CallF(w, r, k, m)
 Cancel == \E r \in Reqs : CancelEn(w, r) /\ w' = CancelF(w, r)
